@@ -253,6 +253,24 @@ macro_rules! field_suite {
                 emit(out, finish(ev, r.map(|x| json!({"out":b(&x)}))));
                 res
             }
+            /// binary operators applied to ONE object on both sides (logged as an `fbin` event with b = a)
+            pub const ALIAS: &[(&str, &str, fn(F) -> F)] = &[
+                ("add", "a+&a", |a| a + &a),
+                ("sub", "a-&a", |a| a - &a),
+                ("mul", "a*&a", |a| a * &a),
+                ("add", "a+a", |a| a + a),
+                ("sub", "a-a", |a| a - a),
+                ("mul", "a*a", |a| a * a),
+            ];
+            pub fn emit_alias(out: &mut dyn Write, idx: usize, a: F) {
+                let (op, form, f) = ALIAS[idx % ALIAS.len()];
+                if op == "div" && a == F::ZERO {
+                    return;
+                }
+                let ev = json!({"k":"fbin","field":NAME,"op":op,"form":form,"a":b(&a),"b":b(&a)});
+                let r = guarded(|| f(a));
+                emit(out, finish(ev, r.map(|x| json!({"out":b(&x)}))));
+            }
             pub fn emit_un(out: &mut dyn Write, idx: usize, a: F) -> Option<F> {
                 let (op, form, f) = UN[idx % UN.len()];
                 let ev = json!({"k":"fun","field":NAME,"op":op,"form":form,"a":b(&a)});
@@ -716,6 +734,11 @@ macro_rules! field_suite {
                         for bb in al.iter().take(12) {
                             cnt += 1;
                             emit_eq(out, cnt, *a, *bb);
+                        }
+                    }
+                    for a in al.iter() {
+                        for i in 0..ALIAS.len() {
+                            emit_alias(out, i, *a);
                         }
                     }
                 }
